@@ -146,7 +146,10 @@ fn round(seed_rng: &mut Rng, round_no: u64) -> Value {
                     },
                 };
                 match op {
-                    0 | 1 | 2 => sender.send(item),
+                    0 | 1 | 2 => {
+                        sender.send(item);
+                        rec.log(json!({"ev": "SendRet", "item": item, "res": "sent"}));
+                    }
                     3 => {
                         let r = res(sender.try_send(item));
                         rec.log(json!({"ev": "SendRet", "item": item, "res": r}));
@@ -220,6 +223,7 @@ fn round(seed_rng: &mut Rng, round_no: u64) -> Value {
         set_current_item(9000);
         rec.log(json!({"ev": "SendCall", "item": 9000, "kind": "send"}));
         sender.send(9000);
+        rec.log(json!({"ev": "SendRet", "item": 9000, "res": "sent"}));
     }
     drop(sender);
     // join with a watchdog
@@ -268,6 +272,7 @@ fn contexts(out: &mut impl Write) {
                 set_current_item(1);
                 rec.log(json!({"ev": "SendCall", "item": 1, "kind": "send"}));
                 sender.send(1);
+                rec.log(json!({"ev": "SendRet", "item": 1, "res": "sent"}));
                 // make sure the batch is in flight when the receiver is stalled
                 std::thread::sleep(Duration::from_millis(5));
                 if op == "send" && receiver_state == "stalled" {
@@ -275,6 +280,7 @@ fn contexts(out: &mut impl Write) {
                     set_current_item(3);
                     rec.log(json!({"ev": "SendCall", "item": 3, "kind": "send"}));
                     sender.send(3);
+                    rec.log(json!({"ev": "SendRet", "item": 3, "res": "sent"}));
                 }
                 let timeout = Duration::from_millis(if receiver_state == "live" { 2000 } else { 50 });
                 let (s2, rec3) = (sender.clone(), rec.clone());
